@@ -23,11 +23,11 @@ type PipeCase struct {
 	Scenario string   `json:"scenario"`
 	// the consumer of the event channel: channel capacity (-1 = the harness default, generous buffer) and an optional
 	// stall of StallMs milliseconds after it has received StallAt events - a legal, merely slow reader
-	Cap      int      `json:"cap"`
-	StallAt  int      `json:"stallAt"`
-	StallMs  int      `json:"stallMs"`
-	Profile  string   `json:"profile"`
-	Data     string   `json:"data"`
+	Cap     int    `json:"cap"`
+	StallAt int    `json:"stallAt"`
+	StallMs int    `json:"stallMs"`
+	Profile string `json:"profile"`
+	Data    string `json:"data"`
 }
 
 const okProfile = `#%Validation Profile 1.0
